@@ -6,7 +6,10 @@ A, B = (sys.argv[2], sys.argv[3]) if len(sys.argv) > 3 else ("A", "B")
 ROUND3 = """
 This is a THIRD round. Two earlier rounds already used: the main routine of the feature and its direct helpers; caches / lazily computed state / a second call on the same object / state shared between objects; less used API variants and optional arguments; signed-vs-unsigned and width slips on indices, offsets and sizes (values >= 0x80, >= 0x8000, negative offsets); empty collections, duplicates and boundary lengths. Find something DIFFERENT in kind: e.g. an interaction between two features that are each fine alone, behaviour that depends on the ORDER of items in the input, error handling that swallows or converts a failure so that a wrong result is returned instead, a condition that is only wrong for a combination of two flags/attributes, a resource/bookkeeping structure updated in one place but not in a sibling place, text formatting/escaping of an unusual value, or a fast path whose precondition is slightly too weak. You may read the earlier rounds' outputs under /tmp/seed/<id>_out/ to avoid repeating them.
 """
-ROUND2 = "" if A == "A" else ROUND3 if A == "E" else """
+ROUND4 = """
+This is a FOURTH round. Read the earlier rounds' outputs under /tmp/seed/<id>_out/{A,B,C,D,E,F}/meta.json first (only those; nothing under /verif) and produce changes whose MECHANISM and TRIGGER are both different from all six. Earlier rounds used: the main routine and helpers; caches, second calls, shared state; API variants; signed/unsigned and width slips; empty/duplicate/boundary inputs; interactions of two features; order dependence; swallowed errors; two-flag conditions; sibling bookkeeping; weak fast-path preconditions. Think about what a strong randomized reference-model test of this property would still be unlikely to exercise: values that only differ in a rarely printed attribute, inputs that are legal but that no generator would think of, behaviour after an exception was raised and caught by the caller, large sizes, deep nesting, unusual-but-legal encodings, aliasing between two objects handed out by the API, results that are right as a set but wrong as a sequence (or the reverse), defaults of optional parameters.
+"""
+ROUND2 = "" if A == "A" else ROUND3 if A == "E" else ROUND4 if A == "G" else """
 This is a SECOND round: the obvious sites (the main parsing/decoding routine of the feature, its most direct helper) were already used by an earlier round, so look further: lazily computed or cached state (first call vs second call on the same object, state shared between objects), less used API variants that answer the same question by another route, helper functions shared with other features, paths taken only for unusual-but-legal inputs (empty collections, maximal field values, duplicates, several items where one is usual, particular orders), and interactions of two inputs or two calls.
 """
 p = props[pid]
